@@ -793,3 +793,22 @@ Section ConvVolume.
     rewrite Ex, Ey, Ez. f_equal. f_equal; f_equal; lia.
   Qed.
 End ConvVolume.
+
+(* with a kernel that sums to one the total volume is preserved *)
+Theorem fc_volume_preserved (f : @fconv R) (x : list R) :
+  let c := fc_pad f in
+  pads_nonneg c -> dims_ok c ->
+  shape3 (fc_w f) = (2 * ppx c + 1, 2 * ppy c + 1, 2 * ppz c + 1) ->
+  all_sym c -> fc_uov f = [] ->
+  (forall qa qb qc, 0 <= qa < 2 * ppx c + 1 -> 0 <= qb < 2 * ppy c + 1 -> 0 <= qc < 2 * ppz c + 1 ->
+     wget (fc_w f) (2 * ppx c - qa) qb qc = wget (fc_w f) qa qb qc /\
+     wget (fc_w f) qa (2 * ppy c - qb) qc = wget (fc_w f) qa qb qc /\
+     wget (fc_w f) qa qb (2 * ppz c - qc) = wget (fc_w f) qa qb qc) ->
+  zsum3 (2 * ppx c + 1) (2 * ppy c + 1) (2 * ppz c + 1) (wget (fc_w f)) = 1%R ->
+  Z.of_nat (length x) = nel (pg c) ->
+  nsum (fc_response f x) = nsum x.
+Proof.
+  intros c Hp Hd Hodd Hsym Hnu Hm Hw1 Hx.
+  rewrite (fc_volume f Hp Hd Hodd Hsym Hnu) by (try exact Hx; intros qa qb qc Ha Hb Hc; apply (Hm qa qb qc Ha Hb Hc)).
+  fold c. rewrite Hw1. apply Rmult_1_l.
+Qed.
